@@ -13,7 +13,7 @@ theorem foldlM_created (S : Schema) (fx : Fixes) (fuel : Nat) (P : Key → Prop)
       canonB S (cur ++ cs.map createdNode) = true → (∀ x ∈ cur, shapeOk S x = true ∧ P (kkey S x)) →
       (cs.map dupRec).foldlM (fun ks c => applyNode S fx fuel ks true (some .create) c) cur
         = .ok (cur ++ cs.map createdNode)
-  | [], cur, _, _, _ => by simp [List.foldlM, pure, Except.pure]
+  | [], cur, _, _, _ => by simp [pure, Except.pure]
   | c :: cs, cur, hcs, hc, hs => by
     have hwc := (hcs c (by simp)).1
     have hshc : shapeOk S (createdNode c) = true := createdNode_shape S c (wfNode_shape S c hwc)
